@@ -414,10 +414,11 @@ pub fn gen_srv_case(rng: &mut Rng, profile: Profile, prop: &'static str) -> SrvC
             6 => SStep::Flush,
             7 => {
                 let c = *rng.pick(&hostiles);
-                match rng.weighted(&[50, 20, 20, 10]) {
+                match rng.weighted(&[50, 20, 20, 10, 6]) {
                     0 => SStep::Close(c),
                     1 => SStep::ShutRd(c),
                     2 => SStep::ShutWr(c),
+                    4 => SStep::Firehose(c),
                     _ => {
                         gcs[c].stalled = true;
                         SStep::Recv(c, 1)
